@@ -9,13 +9,16 @@ use crate::util::*;
 use serde_json::{json, Value};
 
 pub fn meta(m: &mut PropMeta) {
-    m.rule = "ALL directed containment graphs (self-loops allowed) on 1..3 nodes x every struct/enum kind assignment x each of 9 edge routings (direct, optional, sequence element, dictionary key, dictionary value, result success, result failure, tagged optional member, tagged optional sequence member) applied uniformly, and per edge on 2 nodes; all 2^16 graphs on 4 nodes with kinds and routings assigned by a fixed rotation (thorough: x every uniform routing); nodes spread over one and two files; ALL alias graphs on 4 aliases (each alias targets another alias, a primitive, or Sequence<alias>: 9^4); ALL inheritance graphs on 4 interfaces (each lists any subset of the four, itself included, as bases: 2^16, incl. diamonds); plus ring / complete / layered families with 10 nodes. Oracle (reachability / SCC): E032 is reported iff the containment graph has a cycle; every node on a cycle is named in a reported chain; every reported chain 'A -> B -> A' is a closed walk along real field edges and its notes name real fields; no E032 for acyclic graphs; alias graphs: rejected iff an alias reaches itself, otherwise no error; inheritance graphs: rejected iff an interface reaches itself, acyclic lattices accepted; always a verdict (no crash/hang). non-trivial = the graph has an edge; distinct = distinct rendered programs.";
+    m.rule = "ALL directed containment graphs (self-loops allowed) on 1..3 nodes x every struct/enum kind assignment x each of 11 edge routings (direct, optional, sequence element, dictionary key, dictionary value, result success, result failure, tagged optional member, tagged optional sequence member, through an alias, through an alias of a sequence shared by all users of the target) applied uniformly, and per edge on 2 nodes; all 2^16 graphs on 4 nodes with kinds and routings assigned by a fixed rotation (thorough: x every uniform routing); nodes spread over one and two files; ALL alias graphs on 4 aliases (each alias targets another alias, a primitive, or Sequence<alias>: 9^4); ALL inheritance graphs on 4 interfaces (each lists any subset of the four, itself included, as bases: 2^16, incl. diamonds); plus ring / complete / layered families with 10 nodes. Oracle (reachability / SCC): E032 is reported iff the containment graph has a cycle; every node on a cycle is named in a reported chain; every reported chain 'A -> B -> A' is a closed walk along real field edges and its notes name real fields; no E032 for acyclic graphs; alias graphs: rejected iff an alias reaches itself, otherwise no error; inheritance graphs: rejected iff an interface reaches itself, acyclic lattices accepted; always a verdict (no crash/hang). non-trivial = the graph has an edge; distinct = distinct rendered programs.";
     m.explanation = "complete enumeration of small graphs rendered as Slice programs; graph-theoretic oracle";
-    m.quick_bound = "containment: all graphs <= 3 nodes x kinds x 9 routings, all 4-node graphs (rotating kinds/routings); aliases: 9^4; inheritance: 2^16";
+    m.quick_bound = "containment: all graphs <= 3 nodes x kinds x 11 routings, all 4-node graphs (rotating kinds/routings); aliases: 9^4; inheritance: 2^16";
     m.thorough_bound = "as quick, 4-node containment graphs x every uniform routing";
 }
 
-const ROUTINGS: usize = 9;
+const ROUTINGS: usize = 11;
+/// the routings of the per-edge product (direct, optional, sequence, dictionary value / key, result success, tagged
+/// optional, alias of a sequence)
+const PER_EDGE: [usize; 8] = [0, 1, 2, 4, 3, 5, 7, 10];
 /// the member `f<j>` of a struct or enumerator that leads to type `t` by routing `r` (7, 8: TAGGED members)
 fn member(r: usize, j: usize, t: &str) -> String {
     if r >= 7 {
@@ -28,6 +31,10 @@ fn route(r: usize, t: &str) -> String {
     match r {
         7 => format!("{t}?"),
         8 => format!("Sequence<{t}>?"),
+        // through a type alias (declared once per target, see `alias_defs`): every user of a target shares ONE
+        // anonymous type
+        9 => format!("A{t}"),
+        10 => format!("AS{t}"),
         0 => t.to_string(),
         1 => format!("{t}?"),
         2 => format!("Sequence<{t}>"),
@@ -89,6 +96,16 @@ impl GraphCase {
                 defs.push(format!("enum {} {{ {} }}", Self::name(i), members.join(" ")));
             } else {
                 defs.push(format!("struct {} {{ {} }}", Self::name(i), members.join(" ")));
+            }
+        }
+        // aliases used by routings 9 and 10 (after the definitions; with two files: in the second one)
+        for j in 0..self.n {
+            let used = |r: usize| (0..self.n).any(|i| self.adj[i][j] && self.routing[i][j] == r);
+            if used(9) {
+                defs.push(format!("typealias A{} = {}", Self::name(j), Self::name(j)));
+            }
+            if used(10) {
+                defs.push(format!("typealias AS{} = Sequence<{}>", Self::name(j), Self::name(j)));
             }
         }
         if self.two_files && self.n > 1 {
@@ -195,7 +212,7 @@ impl SmallGraphs {
 }
 impl Family for SmallGraphs {
     fn name(&self) -> String {
-        format!("containment/all graphs on {} nodes x kinds x 9 uniform routings (direct, optional, sequence, dictionary key / value, result success / failure, tagged optional, tagged optional sequence) x 1-2 files", self.n)
+        format!("containment/all graphs on {} nodes x kinds x 11 uniform routings (direct, optional, sequence, dictionary key / value, result success / failure, tagged optional, tagged optional sequence, alias, alias of a sequence) x 1-2 files", self.n)
     }
     fn len(&self) -> u64 {
         (1u64 << (self.n * self.n)) * (1 << self.n) * ROUTINGS as u64 * if self.n > 1 { 2 } else { 1 }
@@ -221,8 +238,8 @@ impl PerEdgeRouting {
         for i in 0..2 {
             for j in 0..2 {
                 adj[i][j] = (g >> (i * 2 + j)) & 1 == 1;
-                routing[i][j] = (rest % ROUTINGS as u64) as usize;
-                rest /= ROUTINGS as u64;
+                routing[i][j] = PER_EDGE[(rest % PER_EDGE.len() as u64) as usize];
+                rest /= PER_EDGE.len() as u64;
             }
         }
         GraphCase { n: 2, adj, is_enum: vec![kinds & 1 == 1, kinds & 2 == 2], routing, two_files: false }
@@ -230,10 +247,10 @@ impl PerEdgeRouting {
 }
 impl Family for PerEdgeRouting {
     fn name(&self) -> String {
-        "containment/all graphs on 2 nodes x kinds x every per-edge routing assignment".into()
+        "containment/all graphs on 2 nodes x kinds x every per-edge assignment of 8 routings (direct, optional, sequence, dictionary value / key, result success, tagged optional, alias of a sequence)".into()
     }
     fn len(&self) -> u64 {
-        16 * 4 * (ROUTINGS as u64).pow(4)
+        16 * 4 * (PER_EDGE.len() as u64).pow(4)
     }
     fn describe(&self, idx: u64) -> Value {
         json!({"files": self.decode(idx).render()})
@@ -341,7 +358,7 @@ impl TenNodes {
 }
 impl Family for TenNodes {
     fn name(&self) -> String {
-        "containment/10-node ring, complete, layered DAG, layered with back edge, chain, two rings x 9 routings".into()
+        "containment/10-node ring, complete, layered DAG, layered with back edge, chain, two rings x 11 routings".into()
     }
     fn len(&self) -> u64 {
         6 * ROUTINGS as u64
@@ -613,7 +630,7 @@ impl TwoModules {
             for j in 0..4 {
                 if (g >> (i * 4 + j)) & 1 == 1 {
                     let name = if i / 2 == j / 2 { ["P", "Q"][j % 2].to_string() } else { Self::scoped(j) };
-                    let m = member(if mode == 0 { ((g as usize) + i * 3 + j) % ROUTINGS } else { TWO_MODULE_UNIFORM[mode - 1] }, j, &name);
+                    let m = member(if mode == 0 { ((g as usize) + i * 3 + j) % 9 } else { TWO_MODULE_UNIFORM[mode - 1] }, j, &name);
                     members.push(if is_enum { format!("V{j}({m})") } else { m });
                 }
             }
